@@ -61,11 +61,15 @@ def units(tier):
             us.append(('%s/%s' % (key, sc.case_name(case)), {'key': key, 'case': case, 'tier': tier}))
     us += [(n, dict(k, tier=tier, riemann=True)) for n, k in rk.units('C03', ['eos'], tier)]
     us.append(('guderley', {'gud': True}))
+    us.append(('sedov', {'sedov': True}))
     us.append(('ehep', {'ehep': True}))
     return us
 
 
-def run_unit(name, key=None, case=None, tier='quick', riemann=False, pat=None, fam=None, ehep=False, gud=False):
+def run_unit(name, key=None, case=None, tier='quick', riemann=False, pat=None, fam=None, ehep=False, gud=False, sedov=False):
+    if sedov:
+        from props import sedov_kit
+        return sedov_kit.unit_eos()
     if gud:
         from props import guderley_kit
         return guderley_kit.unit('C03')
